@@ -38,11 +38,13 @@ ITEMS = ["SolidBody/3d", "SolidBody/planestrain", "SolidBody/axi", "SolidBody/3d
          "SolidBody/mixed-axi", "SolidBody/mixed-planestrain", "SolidBody/mixed-fullblocks", "SolidBody/linear-elastic", "SolidBody/plasticity",
          "NearlyIncompressible/3d", "NearlyIncompressible/planestrain", "NearlyIncompressible/axi",
          "Pressure/3d", "Pressure/planestrain", "Pressure/axi", "CauchyStress/3d", "CauchyStress/planestrain",
-         "MPC", "Contact", "PointLoad", "BodyForce", "Gravity", "FormItem/linear-elastic", "FormItem/neo-hooke", "ItemList"]
+         "MPC", "Contact", "PointLoad", "BodyForce", "Gravity", "FormItem/linear-elastic", "FormItem/neo-hooke", "ItemList", "SolidBody/linear-elastic-uniform"]
 
 
 def kinds_for(item):
     item = item.replace("+nonsym", "")
+    if item == "SolidBody/linear-elastic-uniform":
+        return ["quad", "hexahedron", "quad8", "hexahedron20"]
     if item == "NearlyIncompressible/3d":
         return K3
     if item in ("SolidBody/3d", "SolidBody/linear-elastic", "SolidBody/plasticity", "MPC", "Contact", "PointLoad", "BodyForce",
@@ -182,9 +184,17 @@ def check(item, case, rec):
     axi = item.endswith("axi")
     if axi:
         spec["a"] = [spec["a"][0], abs(spec["a"][1]) + 0.4]
+    # item 'linear-elastic-uniform': an equidistant axis-parallel grid with the compressed storage of a uniform region
+    # (a tangent that is constant over the cells is then broadcast from one cell to all)
+    uniform = item == "SolidBody/linear-elastic-uniform"
+    if uniform:
+        item = "SolidBody/linear-elastic"
+        spec.update(jitter=0.0, affine=None, ratio=None, curve=0.0)
     mesh, info = gm.build(spec)
     dim = info["dim"]
-    region = gm.region(mesh, info)
+    region = gm.region(mesh, info, uniform=True) if uniform else gm.region(mesh, info)
+    if uniform:
+        rec.label("uniform-region")
     X = np.array(mesh.points)
     rng = np.random.default_rng(case["lseed"])
     par = case["parallel"]
